@@ -1,5 +1,6 @@
 import DVP.Lemmas.Run
 import DVP.Lemmas.LoopIdem
+import DVP.Lemmas.LoopReset
 
 /-! Splitting a fixed-step run at one of its own grid points: `integrate(t₁); integrate(T)` records the
 same samples as `integrate(T)` when `t₁` is a whole number of steps from the start and at least one
@@ -358,5 +359,137 @@ theorem split_samples (cfg : Cfg ℚ) (htolpos : 0 < cfg.tolEps) (add : V → V 
   · rw [← e1]; exact hB.1
   · exact hA.1
   · rw [hB.2, hB1.2, hA.2]
+
+end DVP.RunSplit
+
+/-! ## reset, then the same calls: the samples of a freshly constructed system -/
+namespace DVP.RunSplit
+open DV DV.Loop DV.Run DVP.Loop DVP.Run DVP.Brent
+
+/-- two systems that differ at most in buffer capacity and status -/
+def Sim (s s' : Sys ℚ) : Prop :=
+  s.ts = s'.ts ∧ s.dt = s'.dt ∧ s.t0 = s'.t0 ∧ s.tf = s'.tf ∧ s.dt0 = s'.dt0 ∧ s.crashed = false ∧ s'.crashed = false
+
+theorem loop_keeps (cfg : Cfg ℚ) (T : ℚ) : ∀ (fuel k : Nat) (s : Sys ℚ) (reqs : List (Req ℚ)),
+    (loop cfg T DVP.Loop.fixedOrc fuel k s reqs).sys.t0 = s.t0 ∧ (loop cfg T DVP.Loop.fixedOrc fuel k s reqs).sys.tf = s.tf ∧
+    (loop cfg T DVP.Loop.fixedOrc fuel k s reqs).sys.dt0 = s.dt0 ∧ (loop cfg T DVP.Loop.fixedOrc fuel k s reqs).sys.crashed = s.crashed := by
+  intro fuel
+  induction fuel with
+  | zero => intro k s reqs; simp [loop]
+  | succ n ih =>
+    intro k s reqs
+    unfold loop
+    by_cases hg : DV.Loop.guard cfg T s = true
+    · simp only [hg, Bool.not_true, Bool.false_eq_true, if_false, DVP.Loop.fixedOrc]
+      obtain ⟨g, hgr⟩ := growth_some T s (request T s)
+      simp only [hgr]
+      have := ih (k + 1) (advance T s { ret := .ok (request T s) (request T s) } (request T s) (request T s) g)
+        ({ t := s.tcur, h := request T s, final := isFinal T s, cap := s.cap } :: reqs)
+      simpa [advance] using this
+    · have hg' : DV.Loop.guard cfg T s = false := by simpa using hg
+      simp [hg']
+
+/-- one `integrate` call keeps two such systems alike -/
+theorem integrate_sim (cfg : Cfg ℚ) (s s' : Sys ℚ) (T : ℚ) (fuel : Nat) (h : Sim s s') :
+    Sim (Loop.integrate cfg s T DVP.Loop.fixedOrc fuel).sys (Loop.integrate cfg s' T DVP.Loop.fixedOrc fuel).sys := by
+  obtain ⟨h1, h2, h3, h4, h5, h6, h7⟩ := h
+  have htc : s.tcur = s'.tcur := tcur_eq h1 h3
+  have hini : initialDt cfg s T = initialDt cfg s' T := by unfold initialDt; rw [h2, htc]
+  rw [integrate_eq, integrate_eq]
+  simp only [h6, h7, Bool.false_eq_true, if_false]
+  rw [htc]
+  by_cases hnear : absC (T - s'.tcur) < cfg.tolEps
+  · simp only [hnear, if_true]; exact ⟨h1, h2, h3, h4, h5, h6, h7⟩
+  · simp only [hnear, if_false]
+    obtain ⟨n, hn⟩ := allocSteps_some (T - s'.tcur) (initialDt cfg s T)
+    obtain ⟨n', hn'⟩ := allocSteps_some (T - s'.tcur) (initialDt cfg s' T)
+    rw [hn, hn']
+    have hirr := loop_cap_irrel cfg T fuel 0 0 (startSys cfg s T n) (startSys cfg s' T n') [] []
+      (by simp [startSys, h1]) (by simp [startSys, h3]) (by simp [startSys, hini])
+    have k1 := loop_keeps cfg T fuel 0 (startSys cfg s T n) []
+    have k2 := loop_keeps cfg T fuel 0 (startSys cfg s' T n') []
+    refine ⟨by simpa [finish] using hirr.1, by simpa [finish] using hirr.2, ?_, ?_, ?_, ?_, ?_⟩
+    · simp only [finish]; rw [k1.1, k2.1]; simpa [startSys] using h3
+    · simp only [finish]; rw [k1.2.1, k2.2.1]; simpa [startSys] using h4
+    · simp only [finish]; rw [k1.2.2.1, k2.2.2.1]; simpa [startSys] using h5
+    · simp only [finish]; rw [k1.2.2.2]; simpa [startSys] using h6
+    · simp only [finish]; rw [k2.2.2.2]; simpa [startSys] using h7
+
+variable {V : Type}
+
+/-- any sequence of calls keeps them alike, and - the states being a function of the times - records the same samples -/
+theorem calls_sim (cfg : Cfg ℚ) (add : V → V → V) (inc : ℚ → V → ℚ → V) (fuel : Nat) :
+    ∀ (targets : List ℚ) (s s' : SysY ℚ V), Sim s.sys s'.sys → StepsOK add inc s.sys.ts s.ys → StepsOK add inc s'.sys.ts s'.ys →
+      s.ys.getLast? = s'.ys.getLast? →
+      (calls cfg add inc fuel s targets).sys.ts = (calls cfg add inc fuel s' targets).sys.ts ∧
+      (calls cfg add inc fuel s targets).ys = (calls cfg add inc fuel s' targets).ys ∧
+      (calls cfg add inc fuel s targets).sys.dt = (calls cfg add inc fuel s' targets).sys.dt
+  | [], s, s', hs, h1, h2, hl => by
+    refine ⟨hs.1, ?_, hs.2.1⟩
+    simp only [calls]
+    apply stepsOK_unique add inc s.sys.ts _ _ h1 (by rw [hs.1]; exact h2) hl
+  | t :: rest, s, s', hs, h1, h2, hl => by
+    have i1 := integrate_steps cfg add inc s t fuel h1
+    have i2 := integrate_steps cfg add inc s' t fuel h2
+    have hsim : Sim (DV.Run.integrate cfg add inc s t fuel).sys (DV.Run.integrate cfg add inc s' t fuel).sys := by
+      unfold DV.Run.integrate
+      rw [fixedOrc_eq]
+      exact integrate_sim cfg s.sys s'.sys t fuel hs
+    exact calls_sim cfg add inc fuel rest _ _ hsim i1.1 i2.1 (by rw [i1.2, i2.2]; exact hl)
+
+end DVP.RunSplit
+
+namespace DVP.RunSplit
+open DV DV.Loop DV.Run DVP.Loop DVP.Run DVP.Brent
+variable {V : Type}
+
+theorem calls_static_crashed (cfg : Cfg ℚ) (add : V → V → V) (inc : ℚ → V → ℚ → V) (fuel : Nat) :
+    ∀ (targets : List ℚ) (s : SysY ℚ V), s.sys.ts ≠ [] → s.sys.crashed = false →
+      Static s.sys (calls cfg add inc fuel s targets).sys ∧ (calls cfg add inc fuel s targets).sys.crashed = false
+  | [], s, hne, hc => ⟨⟨rfl, rfl, rfl, rfl, hne⟩, hc⟩
+  | t :: rest, s, hne, hc => by
+    have h1 : Static s.sys (DV.Run.integrate cfg add inc s t fuel).sys := by
+      unfold DV.Run.integrate; exact integrate_static cfg s.sys t _ fuel hne
+    have hc1 : (DV.Run.integrate cfg add inc s t fuel).sys.crashed = false := by
+      have := integrate_sim cfg s.sys s.sys t fuel ⟨rfl, rfl, rfl, rfl, rfl, hc, hc⟩
+      unfold DV.Run.integrate; rw [fixedOrc_eq]; exact this.2.2.2.2.2.1
+    obtain ⟨h2, hc2⟩ := calls_static_crashed cfg add inc fuel rest _ h1.nonempty hc1
+    exact ⟨⟨h2.t0.trans h1.t0, h2.tf.trans h1.tf, h2.dt0.trans h1.dt0, h2.first.trans h1.first, h2.nonempty⟩, hc2⟩
+
+/-- **After `reset()`, integrating again reproduces what a freshly constructed system produces** - times, states and step, for
+every earlier history of calls and every later sequence of calls (whole-run model, fixed-step methods) -/
+theorem reset_then_calls_eq_fresh (cfg : Cfg ℚ) (add : V → V → V) (inc : ℚ → V → ℚ → V) (fuel : Nat) (t0 tf dt : ℚ) (y0 : V)
+    (before after : List ℚ) :
+    let r := calls cfg add inc fuel (DV.Run.reset (calls cfg add inc fuel (DV.Run.construct t0 tf dt y0) before)) after
+    let f := calls cfg add inc fuel (DV.Run.construct t0 tf dt y0) after
+    r.sys.ts = f.sys.ts ∧ r.ys = f.ys ∧ r.sys.dt = f.sys.dt := by
+  intro r f
+  -- the freshly constructed system
+  obtain ⟨n, hn⟩ := allocSteps_some (tf - t0) dt
+  have hcon : (DV.Run.construct t0 tf dt y0 : SysY ℚ V).sys =
+      { ts := [t0], cap := 1 + n, dt := fixDir dt (tf - t0), dt0 := dt, t0 := t0, tf := tf, status := 0 } := by
+    simp [DV.Run.construct, DV.Loop.construct, hn]
+  have hys : (DV.Run.construct t0 tf dt y0 : SysY ℚ V).ys = [y0] := rfl
+  have h0 : StepsOK add inc (DV.Run.construct t0 tf dt y0 : SysY ℚ V).sys.ts (DV.Run.construct t0 tf dt y0 : SysY ℚ V).ys := by
+    rw [hcon, hys]; simp [StepsOK]
+  have hb := calls_steps cfg add inc fuel before _ h0
+  obtain ⟨hst, hcr⟩ := calls_static_crashed cfg add inc fuel before (DV.Run.construct t0 tf dt y0)
+    (by rw [hcon]; simp) (by rw [hcon])
+  set X := calls cfg add inc fuel (DV.Run.construct t0 tf dt y0) before with hX
+  have hfirst : X.sys.ts.getLast? = some t0 := by rw [hst.first, hcon]; rfl
+  have hylast : X.ys.getLast? = some y0 := by rw [hb.2, hys]; rfl
+  -- the system after reset
+  have hrsys : (DV.Run.reset X).sys.ts = [t0] ∧ (DV.Run.reset X).sys.dt = fixDir dt (tf - t0) ∧ (DV.Run.reset X).sys.t0 = t0 ∧
+      (DV.Run.reset X).sys.tf = tf ∧ (DV.Run.reset X).sys.dt0 = dt ∧ (DV.Run.reset X).sys.crashed = false := by
+    have e1 : X.sys.t0 = t0 := by rw [hst.t0, hcon]
+    have e2 : X.sys.tf = tf := by rw [hst.tf, hcon]
+    have e3 : X.sys.dt0 = dt := by rw [hst.dt0, hcon]
+    simp only [DV.Run.reset, DV.Loop.reset, hfirst, e1, e2, e3, hcr]
+    simp
+  have hrys : (DV.Run.reset X).ys = [y0] := by simp [DV.Run.reset, hylast]
+  obtain ⟨r1, r2, r3, r4, r5, r6⟩ := hrsys
+  have hsim : Sim (DV.Run.reset X).sys (DV.Run.construct t0 tf dt y0 : SysY ℚ V).sys := by
+    rw [hcon]; exact ⟨r1, r2, r3, r4, r5, r6, rfl⟩
+  exact calls_sim cfg add inc fuel after _ _ hsim (by rw [r1, hrys]; simp [StepsOK]) h0 (by rw [hrys, hys])
 
 end DVP.RunSplit
